@@ -168,6 +168,8 @@ def step (d : D) (o : Op) : D × String :=
   | "dump.goat" =>
     (d, s!"=> goat head={toHex d.goat.head.blockHash}|{d.goat.head.blockNumber}|{toHex d.goat.head.parentHash} beacon={toHex d.goat.beaconRoot}")
   | "a.blockstart" => ({ d with snap := some (d.w, d.goat), halting := o.str "halt" == "1", failed := none }, "=> ok")
+  | "a.det" => (d, "=> ok")
+  | "a.export" => (d, "=> ok")
   | "a.process" => (d, "=> " ++ res (processProposal d o))
   | "a.checktx" =>
     -- CheckTx runs the ante chain only
